@@ -85,9 +85,13 @@ def replay(path):
 
 MANIFEST = dict(
     category="proof",
-    technique="Lean 4 theorem subst_error_kind (every failure of the model is SubstitutionError, for all values) + outcome correspondence",
-    text="Theorem: the substitution model never fails with anything but SubstitutionError, for every schema and every value; "
-         "tie: the resulting schema (structural encoding) or exception class of model and code compared on generated cases; "
-         "search: exception type, fake(S%v) under scripted draws validates, (S%v)%v == S%v on the real code.",
-    note="Trusted: Lean kernel + standard axioms, hand model (sampling tie), codec. Usability of the result is proved only as far "
-         "as stated in Props/C12.lean; under HSat (K4) and NoNaN (K6).")
+    technique="Lean 4 theorems subst_error_kind / subst_idempotent / subst_result_subAccepts over the substitution model + "
+              "outcome correspondence",
+    text="Theorems: the substitution model never fails with anything but SubstitutionError, for every schema and every "
+         "value (subst_error_kind); a successful result is a schema that substitution-accepts the value "
+         "(subst_result_subAccepts) and substituting the same value again returns it unchanged (subst_idempotent; "
+         "subst_fromNative_self for fresh schemas); a union result is never empty (subst_any_nonempty). Tie: the resulting "
+         "schema (structural encoding) or exception class of model and code compared on generated cases; search: exception "
+         "type, fake(S%v) under scripted draws validates, (S%v)%v == S%v on the real code.",
+    note="Partial under NoNaN (K6) for idempotence. Trusted: Lean kernel + standard axioms, hand model (sampling tie), "
+         "codec.")
